@@ -307,3 +307,21 @@ Proof.
     reflexivity.
   - unfold MATCH_SCORE, MISMATCH_SCORE. lia.
 Qed.
+
+(** ---- C02 for the comparers: every occurrence within tolerance at the anchored end is reported,
+    with exactly its Hamming distance; an error-free one is removed exactly *)
+Theorem prefix_locate_complete wref wq max_k ov ref query :
+  let '(s1, s2) := translate_pair wref wq ref query in
+  let e := mismatches (eqc_of wref wq) s1 s2 in
+  e <= max_k -> ov <= Z.min (zlen ref) (zlen query) ->
+  prefix_locate wref wq max_k ov ref query =
+    Some (0, Z.min (zlen ref) (zlen query), 0, Z.min (zlen ref) (zlen query),
+          (Z.min (zlen ref) (zlen query) - e) * MATCH_SCORE + e * MISMATCH_SCORE, e).
+Proof.
+  unfold translate_pair, prefix_locate, eqc_of. intros He Hov.
+  match goal with |- (if ?c then _ else _) = _ => destruct c eqn:Ec end; [|reflexivity].
+  apply orb_prop in Ec. destruct Ec as [Ec|Ec]; [apply Z.ltb_lt in Ec | apply Z.ltb_lt in Ec]; lia.
+Qed.
+
+Lemma mismatches_nonneg eqc : forall a b, 0 <= mismatches eqc a b.
+Proof. induction a as [|x a IH]; intros [|y b]; cbn [mismatches]; try lia. specialize (IH b). destruct (eqc x y); lia. Qed.
